@@ -65,6 +65,10 @@ def classify_steps(m, prop):
             viol = True
     if "probe_payload" in f:
         texts.append(f"{where}: payload of active tokens differs")
+    if "done" in f and e.get("done") and not o.get("done") and e.get("res") not in SUCCESS:
+        # the specification ends the request here with a refusal; the implementation carries on
+        viol = True
+        texts.append(f"{where}: the specification refuses here ({e.get('res')}/{e.get('reason')}) but the implementation carried on to {o.get('next')}")
     for k in ("method", "next", "done", "txlog", "idt"):
         if k in f:
             texts.append(f"{where}: {k} differs (spec {e.get(k)}, impl {o.get(k)})")
@@ -141,21 +145,28 @@ def report(prop, parts, binary, wd, findings):
 
 def selftest_steps(binary, hs, wd):
     """corrupt recorded fields of a step trace: the validator must reject them"""
-    hs = hs[:20]
+    hs = hs[:40]
     tr = exec_histories(binary, hs, wd, "selfs", shards=1, test="TestSteps")
     lines = [json.loads(l) for l in open(tr[0])]
     want = []
     done_h = set()
     for idx, e in enumerate(lines):
         if e["ev"] == "step" and e["h"] not in done_h:
-            kind = ["method", "proj", "res"][len(want) % 3]
-            if kind == "method" and not e["done"]:
-                e["method"] = "GetClient" if e["method"] != "GetClient" else "Commit"
-            elif kind == "proj" and e.get("proj"):
-                e["proj"]["n_at"] += 1
-            elif kind == "res" and e["done"]:
-                e["obs"]["res"] = "ok" if e["obs"]["res"] != "ok" else "server_error"
-            else:
+            kinds = ["method", "proj", "res"]
+            kinds = kinds[len(want) % 3:] + kinds[:len(want) % 3]
+            kind = None
+            for k in kinds:
+                if k == "method" and not e["done"]:
+                    e["method"] = "GetClient" if e["method"] != "GetClient" else "Commit"
+                elif k == "proj" and e.get("proj"):
+                    e["proj"]["n_at"] += 1
+                elif k == "res" and e["done"]:
+                    e["obs"]["res"] = "ok" if e["obs"]["res"] != "ok" else "server_error"
+                else:
+                    continue
+                kind = k
+                break
+            if kind is None:
                 continue
             want.append((kind, e["h"], idx + 1))
             done_h.add(e["h"])
